@@ -342,8 +342,9 @@ class BufferStore(Store):
             j = len(self.reserved_events)
             if self.mode == "FIFO":
                 item = self.ready_items[j]
-            else:  # LIFO
-                item = self.ready_items[-1 - j]
+            else:  # LIFO: the most recent item that is not already reserved
+                item = next(it for it in reversed(self.ready_items)
+                            if not any(it is r for r in self.reserved_items))
 
             # record the reservation
             self.reserved_events.append(event)
